@@ -43,6 +43,8 @@ let show_err = function
   | EEob -> "eob" | EIllegalBool -> "illegal" | EOutOfRange -> "range" | EInvalidUtf8 -> "utf8"
   | EDupKey -> "dupkey" | EIllegalValue -> "illegal" | EFuel -> "fuel"
 
+let show_diag d = Printf.sprintf "X %s %s %s" (string_of_n d.gd_level) (hex_of_bytes d.gd_message)
+  (match d.gd_source with Some s -> hex_of_bytes s | None -> "none")
 let handle (toks : string list) : string =
   match toks with
   | "enc" :: t :: v ->
@@ -54,6 +56,17 @@ let handle (toks : string list) : string =
                       | DOk (z, r) -> Printf.sprintf "ok z %s | %d" (string_of_z z) (List.length r) | DErr e -> "err " ^ show_err e)
      | "varuint32" -> (match dec_varuint_max (n_of_string "4294967295") (bytes_of_hex h) with
                       | DOk (v, r) -> Printf.sprintf "ok n %s | %d" (string_of_n v) (List.length r) | DErr e -> "err " ^ show_err e)
+     | "genfile" -> (match dec_generated_file (bytes_of_hex h) with
+                      | DOk (f, r) -> Printf.sprintf "ok G %s %s | %d" (hex_of_bytes f.gf_path) (hex_of_bytes f.gf_contents) (List.length r) | DErr e -> "err " ^ show_err e)
+     | "glevel" -> (match dec_level (bytes_of_hex h) with
+                      | DOk (v, r) -> Printf.sprintf "ok n %s | %d" (string_of_n v) (List.length r) | DErr e -> "err " ^ show_err e)
+     | "gdiag" -> (match dec_diagnostic (bytes_of_hex h) with
+                      | DOk (d, r) -> Printf.sprintf "ok %s | %d" (show_diag d) (List.length r) | DErr e -> "err " ^ show_err e)
+     | "reply" -> (match dec_reply (bytes_of_hex h) with
+                      | DOk ((fs, ds), r) -> Printf.sprintf "ok %s ; %s | %d"
+                            (String.concat " " (List.map (fun f -> Printf.sprintf "G %s %s" (hex_of_bytes f.gf_path) (hex_of_bytes f.gf_contents)) fs))
+                            (String.concat " " (List.map show_diag ds)) (List.length r)
+                      | DErr e -> "err " ^ show_err e)
      | "skiptags" -> (match skip_tagged_fields (bytes_of_hex h) with
                       | DOk (_, r) -> Printf.sprintf "ok u | %d" (List.length r) | DErr e -> "err " ^ show_err e)
      | _ -> (match dec_val (parse_ty t) (bytes_of_hex h) with
